@@ -98,6 +98,8 @@ type Case struct {
 	// finding named by FindKnown).
 	Search    int    `json:"search,omitempty"`
 	FindKnown string `json:"find_known,omitempty"`
+	// Wide marks catalogue programs with hundreds of keys: light backend only, one forced preemption
+	Wide bool `json:"wide,omitempty"`
 	// Deep marks catalogue programs that get the full preemption bound in the quick tier as well
 	Deep bool `json:"deep,omitempty"`
 	// Window restricts forced preemptions to the concurrent phase when enumerating (bookkeeping only)
